@@ -29,6 +29,7 @@ def step (line : String) : String :=
   | "tls" :: rest => Driver.Tls.run rest
   | "rec" :: rest => Driver.KeepAlive.run rest
   | "rq" :: rest => Driver.ReqClient.run rest
+  | "rqdead" :: rest => Driver.ReqClient.runDead rest
   | "rqcut" :: rest => Driver.ReqClient.runCut rest
   | "rqreuse" :: rest => Driver.ReqClient.runReuse rest
   | "rqstall" :: rest => Driver.ReqClient.runStall rest
